@@ -106,6 +106,18 @@ fn run(args: &[String]) {
         max_input: 1 << 21,
         max_headers: 400_000,
     };
+    // denominator of the transition coverage: what the trees' alphabets can reach at any depth
+    let mut reach = std::collections::HashSet::new();
+    {
+        let trees = p.trees.lock().unwrap();
+        let mut done = std::collections::HashSet::new();
+        for t in trees.iter() {
+            let key = (t.lane.entry, t.lane.cfg, t.lane.cap, t.ctx.clone(), t.alphabet.len(), t.alphabet.first().map(|a| a.len()));
+            if done.insert(key) {
+                s1::reachable_pairs(t, &mut reach);
+            }
+        }
+    }
     let t0 = Instant::now();
     let res = runner::run(&cfg, journal, p.phases);
     let wall = t0.elapsed().as_secs_f64();
@@ -159,6 +171,8 @@ fn run(args: &[String]) {
         ("distinct_outcomes", st.distinct_outcomes().to_string()),
         ("outcomes", outcomes_json),
         ("model_control_states_seen", st.control_states().to_string()),
+        ("model_transitions_covered", st.pairs_covered().to_string()),
+        ("model_transitions_reachable", reach.len().to_string()),
         ("block_scanner_nodes", st.block_nodes.to_string()),
         ("exhaustive", res.exhaustive.to_string()),
         ("violations", res.nviol.to_string()),
